@@ -662,7 +662,7 @@ theorem internal_wf (c : Cfg σ ρ) : WellFounded (InternalStep c) := by
     · exact Prod.Lex.left _ _ h
     · show Prod.Lex _ _ (rdRank1 a.reader, a.weight) (rdRank1 b.reader, b.weight)
       rw [h1]; exact Prod.Lex.right _ h2
-  · exact InvImage.wf _ (WellFounded.prod_lex Nat.lt_wfRel.wf Nat.lt_wfRel.wf)
+  · exact InvImage.wf _ (Prod.lex Nat.lt_wfRel Nat.lt_wfRel).wf
 
 theorem eof_step {c : Cfg σ ρ} (s : State σ ρ) (l : Label) (s' : State σ ρ)
     (he : s.eof = true) (h : next c s l = some s') : s'.eof = true := by
